@@ -48,6 +48,9 @@ type tcase struct {
 	Groups  int    `json:"groups"`
 	Setup   []op   `json:"setup"`
 	Threads [][]op `json:"threads"`
+	Mode    string  `json:"mode"`  // "" (free-running goroutines) | "inject"
+	Level   string  `json:"level"` // "cesium" | "domain"
+	KFrac   float64 `json:"kfrac"`
 }
 
 type chanObs struct {
@@ -71,6 +74,8 @@ type result struct {
 	ID     int    `json:"id"`
 	Conc   runObs `json:"conc"`
 	Serial runObs `json:"serial"`
+	Points int    `json:"points"`
+	Target int    `json:"target"`
 }
 
 func idxKey(g uint32) uint32  { return g*10 + 1 }
@@ -92,6 +97,9 @@ func openDB(fs xfs.FS, c tcase) (*cesium.DB, error) {
 	}
 	if c.GC {
 		opts = append(opts, cesium.WithGCConfig(cesium.GCConfig{MaxGoroutine: 4, TryInterval: 3 * time.Millisecond, Threshold: 0.0001}))
+	} else if c.Mode == "inject" {
+		// explicit "gc" ops only, but with a threshold that lets them collect
+		opts = append(opts, cesium.WithGCConfig(cesium.GCConfig{MaxGoroutine: 4, TryInterval: time.Hour, Threshold: 0.0001}))
 	}
 	return cesium.Open(context.Background(), "db", opts...)
 }
@@ -239,6 +247,8 @@ func doOp(ctx context.Context, db *cesium.DB, c tcase, o op) (err error) {
 		return cerr
 	case "delchan":
 		return db.DeleteChannel(o.Key)
+	case "gc":
+		return db.VerifC09GC(ctx)
 	}
 	return fmt.Errorf("unknown op %q", o.Op)
 }
@@ -390,6 +400,9 @@ func runOnce(c tcase, concurrent bool, skip [][]bool) (obs runObs) {
 func runCase(c tcase) result {
 	if c.Procs > 0 {
 		runtime.GOMAXPROCS(c.Procs)
+	}
+	if c.Mode == "inject" {
+		return runInjectCase(c)
 	}
 	r := result{ID: c.ID}
 	r.Conc = runOnce(c, true, nil)
